@@ -16,7 +16,7 @@ RULE = ("a case is one field spec (family x boundary-valued constructor options;
         "and to_python(to_basic(w)) == w with w accepted again; candidates whose status the documentation leaves open "
         "are skipped and counted; non-trivial = at least one accepted and one rejected candidate judged; distinct = "
         "distinct (spec, candidates)")
-REQUIRED = ("judged_accept", "judged_reject", "idempotence_checks", "encode_decode_checks", "determinism_checks")
+REQUIRED = ("sibling_proxy_arguments_judged", "judged_accept", "judged_reject", "idempotence_checks", "encode_decode_checks", "determinism_checks")
 ASSUMPTIONS = ["the reference model (vf/model.py) states the declared constraints of each field family as documented",
                "exception types of rejections are not judged here (C15)"]
 EXCLUDED = ["number strings with underscores, non-ASCII digits or > 400 characters", "NaN against bounds",
@@ -82,6 +82,18 @@ def run(case, ctx, res):
     f = spec.resolve(case["field"], mapping)
     values = spec.resolve(case["values"], mapping)
     root = {"kind": "schema", "key": "", "fields": [f]}
+    # a looser sibling (same shape, no constraints or transforms): its live typed value is offered to the field as well
+    sibling = None
+    SIMPLE = ("str", "int", "float", "bool", "port", "host", "loglevel", "ipv4", "net", "url")
+    if f["family"] in ("list", "dict"):
+        from .c17 import _loosen
+
+        inner = [f.get(k) for k in ("item", "keyf", "valf") if f.get(k)]
+        if inner and all(n.get("kind") == "field" and n["family"] in SIMPLE for n in inner):
+            sibling = _loosen(f)
+            sibling["key"] = "f1"
+            sibling["params"] = {}
+            root["fields"].append(sibling)
     built = spec.build(cc, root)
     keypath = os.path.join(ctx.dir, "k.key")
     cfg = cc.Config(built.schema, key_filename=keypath)
@@ -93,6 +105,35 @@ def run(case, ctx, res):
 
     for v in values:
         rv = spec.realize(cc, v)
+        if sibling is not None and isinstance(rv, (list, dict)) and rv:
+            # the same data, held by the sibling field of the same configuration
+            try:
+                cfg.f1 = rv
+                live = cfg.f1
+            except Exception:
+                live = None
+            if isinstance(live, (cc.ListProxy, cc.DictProxy)):
+                pv = plain(live)
+                ok2, norm2 = model.accepts(f, pv, env)
+                if ok2 is not None:
+                    res.count("sibling_proxy_arguments_judged")
+                    try:
+                        r = field.validate(cfg, live)
+                        raised = None
+                    except Exception as exc:
+                        r, raised = None, exc
+                    if raised is None and not ok2:
+                        res.viol("M-exact", fam + ":accepts-invalid:via-sibling-proxy" + tagtxt, "params %r accept the live value %r of a looser "
+                                 "sibling field -> %r" % (f.get("params"), pv, plain(r)))
+                        continue
+                    if raised is not None and ok2:
+                        res.viol("M-exact", fam + ":rejects-valid:via-sibling-proxy" + tagtxt, "params %r reject the live value %r of a looser "
+                                 "sibling field (%s)" % (f.get("params"), pv, str(raised)[:100]))
+                        continue
+                    if raised is None and model.match(norm2, plain(r)):
+                        res.viol("M-normal", fam + ":normal-form:via-sibling-proxy" + tagtxt, "params %r, live value %r of a looser sibling "
+                                 "field: %s" % (f.get("params"), pv, model.match(norm2, plain(r))))
+                        continue
         ok, norm = model.accepts(f, v, env)
         if ok is None:
             res.count("skipped_open_status")
